@@ -1361,6 +1361,34 @@ where
         }
     }
 
+    fn accepts(&self, input: &[u8]) -> bool {
+        // Same answer as the state walk where a transition table exists; the
+        // LOUDS / critical-bit storages have none and answer from their key store.
+        <Self as Trie>::contains(self, input)
+    }
+
+    fn longest_prefix(&self, input: &[u8]) -> Option<usize> {
+        match &self.storage {
+            TrieStorage::Louds { .. } | TrieStorage::CriticalBit { .. } => {
+                (0..=input.len()).rev().find(|&l| <Self as Trie>::contains(self, &input[..l]))
+            }
+            _ => {
+                let mut state = self.root();
+                let mut last_final = None;
+                for (i, &symbol) in input.iter().enumerate() {
+                    if self.is_final(state) {
+                        last_final = Some(i);
+                    }
+                    match self.transition(state, symbol) {
+                        Some(next_state) => state = next_state,
+                        None => return last_final,
+                    }
+                }
+                if self.is_final(state) { Some(input.len()) } else { last_final }
+            }
+        }
+    }
+
     fn transitions(&self, state: StateId) -> Box<dyn Iterator<Item = (u8, StateId)> + '_> {
         match &self.storage {
             TrieStorage::Patricia { nodes, .. } => {
